@@ -1,6 +1,7 @@
 package main
 
 import (
+	"os"
 	"fmt"
 	"go/token"
 	"go/types"
@@ -211,9 +212,27 @@ func (u *Unit) mapFuncs(mt *types.Map) (string, string) {
 
 func (f *frame) mapUpdate(ins *ssa.MapUpdate) {
 	u := f.u
-	u.note("map update in %s: the contents of all maps are unknown afterwards (maps are read-only functions between updates)", f.key)
 	ep := u.ghost(f.cur, "mapEpoch", sInt)
-	u.setGhost(f.cur, "mapEpoch", Term{"(+ " + ep.S + " 1)", sInt})
+	mt, isMap := ins.Map.Type().Underlying().(*types.Map)
+	mterm, isTerm := f.value(ins.Map).(Term)
+	if !isMap || !isTerm || os.Getenv("GOVC_NOMAPUPD") != "" {
+		u.note("map update in %s: the contents of all maps are unknown afterwards (maps are read-only functions between updates)", f.key)
+		u.setGhost(f.cur, "mapEpoch", Term{"(+ " + ep.S + " 1)", sInt})
+		return
+	}
+	// m[k] = v starts a new epoch in which maps of this type read as before, except m at k. (Maps of other key /
+	// value types have their own read functions; for them the new epoch is unconstrained, i.e. nothing is known.)
+	k := f.term(ins.Key)
+	v := f.term(ins.Value)
+	get, has := u.mapFuncs(mt)
+	ne := u.define("mapEpoch_upd", Term{"(+ " + ep.S + " 1)", sInt})
+	ks := u.tc.smt(u.tc.sortOf(mt.Key()))
+	u.assume(Term{fmt.Sprintf("(forall ((q_m Int) (q_k %[1]s)) (! (= (%[2]s q_m %[3]s q_k) (or (%[2]s q_m %[4]s q_k) (and (= q_m %[5]s) (= q_k %[6]s)))) :pattern ((%[2]s q_m %[3]s q_k))))",
+		ks, has, ne.S, ep.S, mterm.S, k.S), sBool})
+	u.assume(Term{fmt.Sprintf("(forall ((q_m Int) (q_k %[1]s)) (! (= (%[2]s q_m %[3]s q_k) (ite (and (= q_m %[5]s) (= q_k %[6]s)) %[7]s (%[2]s q_m %[4]s q_k))) :pattern ((%[2]s q_m %[3]s q_k))))",
+		ks, get, ne.S, ep.S, mterm.S, k.S, v.S), sBool})
+	u.setGhost(f.cur, "mapEpoch", ne)
+	u.note("map update in %s: modelled exactly for maps of this key/value type (maps of other types: contents unknown afterwards)", f.key)
 }
 
 // typeTagByName resolves a Go type written in a contract (uint16, smf.MetricTicks, *bytes.Buffer) to its tag.
